@@ -51,3 +51,24 @@ check("C04", "model_checking",
       "30-300 additions (shared design vectors included) run on the real Archive with both comparators; ArchiveTrace validates every event.",
       "trusted: TLC; rank abstraction of costs and features; insertion observed by object identity",
       "TLC exhaustive model + TLC-emitted behaviours replayed + TLC trace validation", "DESIGN.md 5/C04")
+
+check("C05", "model_checking",
+      "Job.tla models a batch evaluation at the grain of Job.evaluate / evaluate_serial / evaluate_parallel (Take, Begin incl. the skip "
+      "rules, ReturnOk, Sync, Restart = repeated evaluation of the same batch); TLC checks for all initial mixes of new/evaluated designs "
+      "(<=3 quick / 4 thorough, 1-3 workers, 2-3 rounds) that evaluated designs are never called, every new design exactly once, costs "
+      "belong to the stored vector, every interleaving ends in the serial result, plus liveness under weak fairness. JobGen emits each "
+      "initial mix; it becomes a real batch (random dimension, 1-3 objectives, min/max, constraints, per-design precision, some with "
+      "transient failures) run through Algorithm.evaluate; sweeps over five generators and SciPy / NLopt bridges are recorded as well; "
+      "JobTrace validates call/ret/sync/end events, the fixed-point signed-cost and marker law, sweep order and the scalar bridge.",
+      "trusted: TLC; hash-based fixed-point objective (costs<->vector pairing decided by equality); observation at the user objective, the "
+      "data_store object and object fields after the public call", "TLC exhaustive model + TLC-emitted cases replayed + TLC trace validation",
+      "DESIGN.md 5/C05")
+check("C06", "model_checking",
+      "Job.tla with Faults = {transient, fatal}: ReturnTransient (failed copy, re-sample, retry, RuntimeError after the 5th consecutive "
+      "failure) and ReturnFatal; TLC checks attempt bound, failed-list accounting, pairing, raise law, not-marked-on-fatal for <=3 (4) "
+      "designs serially and 2 (3) designs x 2 workers. JobGen emits EVERY fault pattern of the serial model for 1..3 designs (which call "
+      "fails with which kind; exactly four and exactly five consecutive failures included); each becomes a scripted objective run "
+      "serially and with two threads; random scripts on four box classes and whole NSGA-II / eps-MOEA runs with failures are recorded; "
+      "JobTrace validates every event (attempt bound, vector-is-current, re-sample inside box, failed list order/content, exception law).",
+      "trusted: TLC; scripted objective; exception identity observed at the caller of Algorithm.evaluate / run",
+      "TLC exhaustive fault model + every TLC-emitted fault pattern replayed + TLC trace validation", "DESIGN.md 5/C06")
